@@ -15,6 +15,7 @@ CONSTANTS
   SeiSet = {"zero", "never"}
   ReR = {1, 2}
   ReM = {0, 10}
+  Handshake = "none"
   RecordSched = FALSE
   Dev = {}
 VIEW view
